@@ -88,11 +88,16 @@ def run(ctx):
                 inc[-1] += 1
             ts = t0 + np.concatenate([[0], np.cumsum(inc)]) * int(rng.choice([1, 100]))
         dt = float(rng.choice([0.002, 0.005, 1.0]))
+        if i % 4 == 0:
+            dt = float(10.0 ** rng.uniform(-15, 3))        # any time step: SI seconds (1e-15) up to coarse-grained units
         A = make_series(rng, T, N, rank, d, cplx, kind, sym)
         # the same values in other in-memory representations (read-only, strided view, Fortran order, integer-valued series)
         lay = ["copy", "copy", "copy", "readonly", "strided", "fortran", "int"][(T * 5 + N * 3 + rank + i) % 7]
         if lay == "int" and not cplx:
-            A = np.rint(3 * A).astype(np.int64)
+            if (T + N) % 2:
+                A = np.rint(3 * A).astype(np.int64)
+            else:
+                A = np.clip(np.rint(A), -1, 1).astype(np.int8)      # an indicator / spin series stored in one byte
             if not (A[0] != 0).any():
                 A[0].flat[0] = 1
         snaps = Snapshots(nsnapshots=T, snapshots=[
@@ -115,6 +120,18 @@ def run(ctx):
             Ain = big[:, 1::2]
         elif lay == "fortran":
             Ain = np.asfortranarray(A)
+        if T >= 3 and rng.random() < 0.3:
+            # history: another trajectory with the same number of frames and the same first and last timestep, but other frames in
+            # between (evenly <-> unevenly spaced), analysed immediately before; also the same trajectory with another time step
+            ts2 = np.array(ts).copy()
+            mid = np.sort(rng.choice(np.arange(int(ts[0]) + 1, max(int(ts[-1]), int(ts[0]) + T)), size=T - 2, replace=False)) if int(ts[-1]) - int(ts[0]) > T else ts2[1:-1]
+            ts2[1:-1] = mid
+            snaps2 = Snapshots(nsnapshots=T, snapshots=[
+                SingleSnapshot(timestep=int(t), nparticle=N, particle_type=np.ones(N, dtype=int), positions=np.zeros((N, d)),
+                               boxlength=np.ones(d), boxbounds=np.zeros((d, 2)), realbounds=None, hmatrix=np.eye(d)) for t in ts2])
+            ctx.call(key + "/prior_call", time_correlation, snaps2, Ain, dt, "", data=info)
+            ctx.call(key + "/prior_call", time_correlation, snaps, Ain, dt * 3.0, "", data=info)
+            ctx.count("prior_call_one_argument_changed")
         ok, res = ctx.call(key, time_correlation, snaps, Ain, dt, outfile, data=info)
         ctx.count("layout_" + lay)
         if ok:
